@@ -356,6 +356,16 @@ def directed_forms():
                                                    {"k": "grp", "name": "g", "kids": [q("d", default="now()"), q("e", "date", default="2020-01-01"),
                                                                                       {"k": "rep", "name": "r2", "kids": [q("f", "integer", default="1 + 1"), q("f2", default="${a}")]}]}]},
                 q("z", default="uuid()")])
+    # prefix-related names between a repeat and elements outside it (string-prefix vs path-segment confusion)
+    for rep_name, outside in [("r", ["r_x", "rs", "r2"]), ("abc", ["abcd", "abc.e", "abc-f"])]:
+        els = [{"k": "rep", "name": rep_name, "kids": [q("in_" + rep_name, default="now()")]}]
+        for i, nm in enumerate(outside):
+            if i == 1:
+                els.append({"k": "grp", "name": nm, "kids": [q("w" + nm.replace(".", "").replace("-", ""), default="1 + 1"), q("s" + str(i), default="abc")]})
+            else:
+                els.append(q(nm, "integer" if i else "text", default="today()" if i else "uuid()"))
+        out.append(els)
+        out.append([{"k": "grp", "name": "top", "kids": list(reversed(els))}])
     return out
 
 
